@@ -177,6 +177,10 @@ def run(S, tier, rep):
         names = array_attr_names(inst)
         # outputs: the two mismatch fields, the marker force, and the Eulerian forcing field argument
         liveness(rep, lab, st, tr, inst, VBF_PUBLIC, VBF_PUBLIC | {"lag_grid_forcing_field"}, extra_inputs=ext_in)
+    # the forcing grids' own scratch buffers (arms, transposed directors ...): a fresh grid object must not need what an
+    # earlier evaluation left in them
+    from .c09 import freshness
+    freshness(S, rep, "C18.a")
     restart_helper(S, rep)
-    rep.require_min("C18.a", 40)
+    rep.require_min("C18.a", 76)
     rep.require_min("C18.b", 9)
